@@ -43,6 +43,9 @@ PF = gen.Profile(
     weeks=(3, 5),
     max_slots=8,
     leaves=True,
+    res_groups=True,
+    gaps=True,
+    maxgap=True,
 )
 PF_SUB = replace(PF, subslot=True, odd_eff=True)
 
